@@ -1,7 +1,786 @@
 import XV.Model.Sched
+/-!
+# C12 — concurrent submissions are serialisable: conflict-free admission, no deadlock
+
+Theorems about the step system `XV.SpinLock.step` (the repaired `spin_lock.go`: one key is taken /
+released in ONE atomic step) under EVERY schedule (`run s sched`, `sched : List Nat` arbitrary) and any
+number of threads, and the refutation of the same statement for the step system of the code before
+the repair (`XV.SpinLock.Split`, LoadOrStore/Add and Release/Delete as separate steps).
+-/
 namespace XV.C12
 open XV.SpinLock
 
-theorem placeholder : True := trivial
+/-! ### counting holders -/
+
+def sumBy (f : Thread → Nat) : List Thread → Nat
+  | [] => 0
+  | a :: l => f a + sumBy f l
+
+theorem sumBy_set (f : Thread → Nat) (l : List Thread) (t : Nat) (th a : Thread) (h : l[t]? = some th) :
+    sumBy f (l.set t a) + f th = sumBy f l + f a := by
+  induction l generalizing t with
+  | nil => simp at h
+  | cons b l ih =>
+    cases t with
+    | zero =>
+      simp at h
+      subst h
+      simp [sumBy]
+      omega
+    | succ t =>
+      simp at h
+      have := ih t h
+      simp [sumBy]
+      omega
+
+theorem sumBy_ge (f : Thread → Nat) (l : List Thread) (t : Nat) (th : Thread) (h : l[t]? = some th) :
+    f th ≤ sumBy f l := by
+  induction l generalizing t with
+  | nil => simp at h
+  | cons b l ih =>
+    cases t with
+    | zero =>
+      simp at h
+      subst h
+      simp [sumBy]
+    | succ t =>
+      simp at h
+      have := ih t h
+      simp [sumBy]
+      omega
+
+theorem sumBy_ge_two (f : Thread → Nat) (l : List Thread) (t1 t2 : Nat) (th1 th2 : Thread) (hne : t1 ≠ t2)
+    (h1 : l[t1]? = some th1) (h2 : l[t2]? = some th2) : f th1 + f th2 ≤ sumBy f l := by
+  induction l generalizing t1 t2 with
+  | nil => simp at h1
+  | cons b l ih =>
+    cases t1 with
+    | zero =>
+      cases t2 with
+      | zero => exact absurd rfl hne
+      | succ t2 =>
+        simp at h1 h2
+        subst h1
+        have := sumBy_ge f l t2 th2 h2
+        simp [sumBy]
+        omega
+    | succ t1 =>
+      cases t2 with
+      | zero =>
+        simp at h1 h2
+        subst h2
+        have := sumBy_ge f l t1 th1 h1
+        simp [sumBy]
+        omega
+      | succ t2 =>
+        simp at h1 h2
+        have := ih t1 t2 (fun h => hne (by rw [h])) h1 h2
+        simp [sumBy]
+        omega
+
+theorem sumBy_zero (f : Thread → Nat) (l : List Thread) (h : ∀ th ∈ l, f th = 0) : sumBy f l = 0 := by
+  induction l with
+  | nil => rfl
+  | cons b l ih =>
+    have hb := h b (by simp)
+    have := ih (fun th hth => h th (by simp [hth]))
+    simp [sumBy]
+    omega
+
+theorem sumBy_pos (f : Thread → Nat) (l : List Thread) (h : 0 < sumBy f l) :
+    ∃ (t : Nat) (th : Thread), l[t]? = some th ∧ 0 < f th := by
+  induction l with
+  | nil => simp [sumBy] at h
+  | cons b l ih =>
+    by_cases hb : 0 < f b
+    · exact ⟨0, b, by simp, hb⟩
+    · have : 0 < sumBy f l := by
+        simp [sumBy] at h
+        omega
+      obtain ⟨t, th, h1, h2⟩ := ih this
+      exact ⟨t + 1, th, by simpa using h1, h2⟩
+
+/-- decidable version of `Thread.holds` -/
+def holdsB (k : Nat) (kd : Kind) (l : List Item) : Bool := l.any (fun it => it.key == k && it.kind == kd)
+
+theorem holdsB_iff (k : Nat) (kd : Kind) (th : Thread) : holdsB k kd th.succ = true ↔ th.holds k kd := by
+  simp [holdsB, Thread.holds, List.any_eq_true]
+
+/-- 1 if the thread holds `(k, kd)`, else 0 -/
+def hold (k : Nat) (kd : Kind) (th : Thread) : Nat := if holdsB k kd th.succ then 1 else 0
+
+/-- number of threads holding key `k` in mode `kd` -/
+def cnt (s : Sys) (k : Nat) (kd : Kind) : Nat := sumBy (hold k kd) s.threads
+
+theorem hold_le_one (k : Nat) (kd : Kind) (th : Thread) : hold k kd th ≤ 1 := by
+  unfold hold; split <;> omega
+
+theorem hold_eq_one_iff (k : Nat) (kd : Kind) (th : Thread) : hold k kd th = 1 ↔ th.holds k kd := by
+  rw [← holdsB_iff]
+  unfold hold
+  split <;> simp_all
+
+theorem hold_eq_zero_iff (k : Nat) (kd : Kind) (th : Thread) : hold k kd th = 0 ↔ ¬ th.holds k kd := by
+  rw [← holdsB_iff]
+  unfold hold
+  split <;> simp_all
+
+/-- the keys a thread holds and the keys it has still to take are pairwise distinct
+(ExtractLockKeys de-duplicates the keys of a request) -/
+def keysDistinct (th : Thread) : Prop := ((th.succ ++ th.todo).map (·.key)).Nodup
+
+/-- `succLocked` and `todo` partition the request's keys while the thread is locking or inside -/
+def shape (th : Thread) : Prop :=
+  match th.pc with
+  | .locking => ∀ it, it ∈ th.items → it ∈ th.succ ∨ it ∈ th.todo
+  | .checked _ => ∀ it, it ∈ th.items → it ∈ th.succ
+  | .applied => ∀ it, it ∈ th.items → it ∈ th.succ
+  | .published => ∀ it, it ∈ th.items → it ∈ th.succ
+  | .unlocking => True
+  | .done => th.succ = []
+
+/-- per-key invariant of the lock table -/
+structure KeyInv (s : Sys) (k : Nat) : Prop where
+  rc_eq : s.rc k = (cnt s k .S : Int)
+  free : s.m k = none → cnt s k .S = 0 ∧ cnt s k .X = 0
+  excl : s.m k = some .X → cnt s k .S = 0 ∧ cnt s k .X = 1
+  shared : s.m k = some .S → 1 ≤ cnt s k .S ∧ cnt s k .X = 0
+
+/-- the inductive invariant -/
+structure Inv (s : Sys) : Prop where
+  distinct : ∀ th ∈ s.threads, keysDistinct th
+  shape : ∀ th ∈ s.threads, shape th
+  key : ∀ k, KeyInv s k
+  /-- a request whose cs.check passed still sees the versions it checked (nobody wrote its keys since) -/
+  fresh : ∀ th ∈ s.threads, th.pc = .checked true → check s.store th.items = true
+
+/-! ### how one thread's update changes the counts -/
+
+theorem cnt_set {s s' : Sys} {t : Nat} {th th' : Thread} (h : s.threads[t]? = some th)
+    (hs : s'.threads = s.threads.set t th') (k : Nat) (kd : Kind) :
+    cnt s' k kd + hold k kd th = cnt s k kd + hold k kd th' := by
+  unfold cnt
+  rw [hs]
+  exact sumBy_set _ _ _ _ _ h
+
+theorem hold_same_succ {th th' : Thread} (h : th'.succ = th.succ) (k : Nat) (kd : Kind) :
+    hold k kd th' = hold k kd th := by
+  unfold hold
+  rw [h]
+
+theorem hold_cons {th th' : Thread} {it : Item} (h : th'.succ = it :: th.succ) (k : Nat) (kd : Kind) :
+    hold k kd th' = if it.key = k ∧ it.kind = kd then 1 else hold k kd th := by
+  unfold hold holdsB
+  rw [h]
+  by_cases h1 : it.key = k <;> by_cases h2 : it.kind = kd <;> simp [h1, h2]
+
+theorem not_holds_of_key_notin {th : Thread} {k : Nat} (h : k ∉ th.succ.map (·.key)) (kd : Kind) :
+    hold k kd th = 0 := by
+  rw [hold_eq_zero_iff]
+  intro ⟨it, hit, hk, _⟩
+  exact h (by simpa using ⟨it, hit, hk⟩)
+
+theorem distinct_acquire {th : Thread} {it : Item} {rest : List Item} (hd : keysDistinct th)
+    (ht : th.todo = it :: rest) :
+    it.key ∉ th.succ.map (·.key) ∧ keysDistinct { th with todo := rest, succ := it :: th.succ } := by
+  unfold keysDistinct at *
+  rw [ht] at hd
+  have hp : ((th.succ ++ it :: rest).map (·.key)).Perm ((it :: (th.succ ++ rest)).map (·.key)) :=
+    (List.perm_middle).map _
+  have hd' := hp.nodup_iff.mp hd
+  constructor
+  · simp only [List.map_cons, List.nodup_cons, List.map_append, List.mem_append] at hd'
+    exact fun h => hd'.1 (Or.inl h)
+  · simpa using hd'
+
+theorem distinct_release {th : Thread} {it : Item} {rest : List Item} (hd : keysDistinct th)
+    (hs : th.succ = it :: rest) (pc : Pc) :
+    it.key ∉ rest.map (·.key) ∧ keysDistinct { th with succ := rest, pc := pc } := by
+  unfold keysDistinct at *
+  rw [hs] at hd
+  simp only [List.cons_append, List.map_cons, List.nodup_cons, List.map_append, List.mem_append] at hd
+  constructor
+  · exact fun h => hd.1 (Or.inl h)
+  · simpa using hd.2
+
+theorem keyInv_congr {s s' : Sys} {k : Nat} (hrc : s'.rc k = s.rc k) (hm : s'.m k = s.m k)
+    (hc : ∀ kd, cnt s' k kd = cnt s k kd) (h : KeyInv s k) : KeyInv s' k := by
+  constructor
+  · rw [hrc, hc]; exact h.rc_eq
+  · rw [hm, hc, hc]; exact h.free
+  · rw [hm, hc, hc]; exact h.excl
+  · rw [hm, hc, hc]; exact h.shared
+
+theorem mem_set_cases {l : List Thread} {t : Nat} {a x : Thread} (h : x ∈ l.set t a) : x ∈ l ∨ x = a :=
+  List.mem_or_eq_of_mem_set h
+
+/-- a step that changes only thread `t`'s control state (and possibly appends to the log) -/
+theorem inv_local {s s' : Sys} {t : Nat} {th th' : Thread} (hinv : Inv s) (h : s.threads[t]? = some th)
+    (hthreads : s'.threads = s.threads.set t th') (hm : s'.m = s.m) (hrc : s'.rc = s.rc)
+    (hstore : s'.store = s.store) (hsucc : th'.succ = th.succ) (htodo : th'.todo = th.todo)
+    (hshape : shape th') (hfresh : th'.pc = .checked true → check s.store th'.items = true) : Inv s' := by
+  have hmem : th ∈ s.threads := List.mem_of_getElem? h
+  constructor
+  · intro x hx
+    rw [hthreads] at hx
+    rcases mem_set_cases hx with hx | hx
+    · exact hinv.distinct x hx
+    · subst hx
+      have := hinv.distinct th hmem
+      unfold keysDistinct at *
+      rw [hsucc, htodo]; exact this
+  · intro x hx
+    rw [hthreads] at hx
+    rcases mem_set_cases hx with hx | hx
+    · exact hinv.shape x hx
+    · subst hx; exact hshape
+  · intro k
+    apply keyInv_congr (by rw [hrc]) (by rw [hm]) _ (hinv.key k)
+    intro kd
+    have := cnt_set h hthreads k kd
+    rw [hold_same_succ hsucc] at this
+    omega
+  · intro x hx hpc
+    rw [hthreads] at hx
+    rw [hstore]
+    rcases mem_set_cases hx with hx | hx
+    · exact hinv.fresh x hx hpc
+    · subst hx; exact hfresh hpc
+
+/-! ### the table operations -/
+
+theorem lockOne_other {m : Nat → Option Kind} {rc : Nat → Int} {k : Nat} {kd : Kind}
+    {r : (Nat → Option Kind) × (Nat → Int)} (h : lockOne m rc k kd = some r) (x : Nat) (hx : x ≠ k) :
+    r.1 x = m x ∧ r.2 x = rc x := by
+  unfold lockOne at h
+  split at h <;> simp at h <;> subst h <;> simp [upd, hx]
+
+theorem lockOne_spec {m : Nat → Option Kind} {rc : Nat → Int} {k : Nat} {kd : Kind}
+    {r : (Nat → Option Kind) × (Nat → Int)} (h : lockOne m rc k kd = some r) :
+    (m k = none ∧ kd = .X ∧ r.1 k = some .X ∧ r.2 k = rc k) ∨
+    (m k = none ∧ kd = .S ∧ r.1 k = some .S ∧ r.2 k = rc k + 1) ∨
+    (m k = some .S ∧ kd = .S ∧ r.1 k = some .S ∧ r.2 k = rc k + 1) := by
+  unfold lockOne at h
+  split at h <;> simp at h <;> subst h <;> simp_all [upd]
+
+theorem unlockOne_other (m : Nat → Option Kind) (rc : Nat → Int) (k : Nat) (kd : Kind) (x : Nat) (hx : x ≠ k) :
+    (unlockOne m rc k kd).1 x = m x ∧ (unlockOne m rc k kd).2 x = rc x := by
+  unfold unlockOne
+  cases kd
+  · simp only []
+    split <;> simp [upd, hx]
+  · simp [upd, hx]
+
+theorem unlockOne_X (m : Nat → Option Kind) (rc : Nat → Int) (k : Nat) :
+    (unlockOne m rc k .X).1 k = none ∧ (unlockOne m rc k .X).2 k = rc k := by
+  simp [unlockOne, upd]
+
+theorem unlockOne_S (m : Nat → Option Kind) (rc : Nat → Int) (k : Nat) :
+    (unlockOne m rc k .S).2 k = rc k - 1 ∧
+    ((rc k - 1 = 0 ∧ (unlockOne m rc k .S).1 k = none) ∨ (rc k - 1 ≠ 0 ∧ (unlockOne m rc k .S).1 k = m k)) := by
+  unfold unlockOne
+  simp only []
+  split <;> simp_all [upd]
+
+/-! ### mutual exclusion from the invariant -/
+
+theorem cnt_ge_of_holds {s : Sys} {t : Nat} {th : Thread} {k : Nat} {kd : Kind} (h : s.threads[t]? = some th)
+    (hh : th.holds k kd) : 1 ≤ cnt s k kd := by
+  have := sumBy_ge (hold k kd) s.threads t th h
+  rw [(hold_eq_one_iff k kd th).mpr hh] at this
+  exact this
+
+/-- whoever holds `(k, kd)`, the table's entry for `k` exists and has kind `kd` -/
+theorem entry_of_holds {s : Sys} (hk : ∀ k, KeyInv s k) {t : Nat} {th : Thread} {k : Nat} {kd : Kind}
+    (h : s.threads[t]? = some th) (hh : th.holds k kd) : s.m k = some kd := by
+  have hc := cnt_ge_of_holds h hh
+  have ki := hk k
+  cases hm : s.m k with
+  | none =>
+    have := ki.free hm
+    cases kd <;> omega
+  | some kd' =>
+    cases kd' <;> cases kd <;> first | rfl | (have := ki.excl hm; omega) | (have := ki.shared hm; omega)
+
+/-- an exclusive holder of `k` excludes every other holder of `k` -/
+theorem excl_of_inv {s : Sys} (hk : ∀ k, KeyInv s k) {t1 t2 : Nat} {th1 th2 : Thread} {k : Nat} {kd : Kind}
+    (hne : t1 ≠ t2) (h1 : s.threads[t1]? = some th1) (h2 : s.threads[t2]? = some th2)
+    (hh1 : th1.holds k .X) : ¬ th2.holds k kd := by
+  intro hh2
+  have hm := entry_of_holds hk h1 hh1
+  have hm2 := entry_of_holds hk h2 hh2
+  rw [hm] at hm2
+  cases hm2
+  have := (hk k).excl hm
+  have h2' := sumBy_ge_two (hold k .X) s.threads t1 t2 th1 th2 hne h1 h2
+  rw [(hold_eq_one_iff k .X th1).mpr hh1, (hold_eq_one_iff k .X th2).mpr hh2] at h2'
+  unfold cnt at this
+  omega
+
+/-! ### the three kinds of non-local steps preserve the invariant -/
+
+theorem inv_acquire {s : Sys} {t : Nat} {th : Thread} {it : Item} {rest : List Item}
+    {r : (Nat → Option Kind) × (Nat → Int)} (hinv : Inv s) (h : s.threads[t]? = some th)
+    (hpc : th.pc = .locking) (ht : th.todo = it :: rest) (hl : lockOne s.m s.rc it.key it.kind = some r) :
+    Inv { s with m := r.1, rc := r.2, threads := s.threads.set t { th with todo := rest, succ := it :: th.succ } } := by
+  have hmem : th ∈ s.threads := List.mem_of_getElem? h
+  obtain ⟨hnot, hdist⟩ := distinct_acquire (hinv.distinct th hmem) ht
+  constructor
+  · intro x hx
+    rcases mem_set_cases hx with hx | hx
+    · exact hinv.distinct x hx
+    · subst hx; exact hdist
+  · intro x hx
+    rcases mem_set_cases hx with hx | hx
+    · exact hinv.shape x hx
+    · subst hx
+      have hs := hinv.shape th hmem
+      unfold shape at hs ⊢
+      simp only [hpc] at hs ⊢
+      intro a ha
+      rcases hs a ha with h1 | h1
+      · exact Or.inl (by simp [h1])
+      · rw [ht] at h1
+        rcases List.mem_cons.mp h1 with h2 | h2
+        · exact Or.inl (by simp [h2])
+        · exact Or.inr h2
+  · intro k
+    have hc : ∀ kd, cnt { s with m := r.1, rc := r.2, threads := s.threads.set t { th with todo := rest, succ := it :: th.succ } } k kd
+          + hold k kd th = cnt s k kd + (if it.key = k ∧ it.kind = kd then 1 else hold k kd th) := by
+      intro kd
+      have := cnt_set (s' := { s with m := r.1, rc := r.2, threads := s.threads.set t { th with todo := rest, succ := it :: th.succ } })
+        (th' := { th with todo := rest, succ := it :: th.succ }) h rfl k kd
+      rw [hold_cons (th := th) (th' := { th with todo := rest, succ := it :: th.succ }) (it := it) rfl k kd] at this
+      exact this
+    by_cases hk : k = it.key
+    · subst hk
+      have ki := hinv.key it.key
+      have hS := hc .S
+      have hX := hc .X
+      rw [not_holds_of_key_notin hnot] at hS hX
+      rcases lockOne_spec hl with ⟨hm, hkd, hr1, hr2⟩ | ⟨hm, hkd, hr1, hr2⟩ | ⟨hm, hkd, hr1, hr2⟩
+      · have hf := ki.free hm
+        have hrc := ki.rc_eq
+        simp [hkd] at hS hX
+        constructor
+        · show r.2 it.key = _
+          omega
+        · intro hh; rw [show ({ s with m := r.1, rc := r.2, threads := _ } : Sys).m = r.1 from rfl, hr1] at hh; cases hh
+        · intro _; omega
+        · intro hh; rw [show ({ s with m := r.1, rc := r.2, threads := _ } : Sys).m = r.1 from rfl, hr1] at hh; cases hh
+      · have hf := ki.free hm
+        have hrc := ki.rc_eq
+        simp [hkd] at hS hX
+        constructor
+        · show r.2 it.key = _
+          omega
+        · intro hh; rw [show ({ s with m := r.1, rc := r.2, threads := _ } : Sys).m = r.1 from rfl, hr1] at hh; cases hh
+        · intro hh; rw [show ({ s with m := r.1, rc := r.2, threads := _ } : Sys).m = r.1 from rfl, hr1] at hh; cases hh
+        · intro _; omega
+      · have hf := ki.shared hm
+        have hrc := ki.rc_eq
+        simp [hkd] at hS hX
+        constructor
+        · show r.2 it.key = _
+          omega
+        · intro hh; rw [show ({ s with m := r.1, rc := r.2, threads := _ } : Sys).m = r.1 from rfl, hr1] at hh; cases hh
+        · intro hh; rw [show ({ s with m := r.1, rc := r.2, threads := _ } : Sys).m = r.1 from rfl, hr1] at hh; cases hh
+        · intro _; omega
+    · have ho := lockOne_other hl k hk
+      apply keyInv_congr ho.2 ho.1 _ (hinv.key k)
+      intro kd
+      have := hc kd
+      have hne : ¬ (it.key = k ∧ it.kind = kd) := fun hh => hk hh.1.symm
+      simp only [hne, if_false] at this
+      omega
+  · intro x hx hxpc
+    rcases mem_set_cases hx with hx | hx
+    · exact hinv.fresh x hx hxpc
+    · subst hx
+      simp [hpc] at hxpc
+
+theorem inv_release {s s' : Sys} {t : Nat} {th : Thread} {it : Item} {rest : List Item}
+    (hinv : Inv s) (h : s.threads[t]? = some th) (hs : th.succ = it :: rest)
+    (hm' : s'.m = (unlockOne s.m s.rc it.key it.kind).1) (hrc' : s'.rc = (unlockOne s.m s.rc it.key it.kind).2)
+    (hstore : s'.store = s.store)
+    (hthreads : s'.threads = s.threads.set t { th with succ := rest, pc := .unlocking }) : Inv s' := by
+  have hmem : th ∈ s.threads := List.mem_of_getElem? h
+  obtain ⟨hnot, hdist⟩ := distinct_release (hinv.distinct th hmem) hs .unlocking
+  constructor
+  · intro x hx
+    rw [hthreads] at hx
+    rcases mem_set_cases hx with hx | hx
+    · exact hinv.distinct x hx
+    · subst hx; exact hdist
+  · intro x hx
+    rw [hthreads] at hx
+    rcases mem_set_cases hx with hx | hx
+    · exact hinv.shape x hx
+    · subst hx; simp [shape]
+  · intro k
+    have hc : ∀ kd, cnt s' k kd + (if it.key = k ∧ it.kind = kd then 1 else hold k kd { th with succ := rest, pc := .unlocking })
+          = cnt s k kd + hold k kd { th with succ := rest, pc := .unlocking } := by
+      intro kd
+      have := cnt_set (s' := s') (th' := { th with succ := rest, pc := .unlocking }) h hthreads k kd
+      rw [hold_cons (th := { th with succ := rest, pc := .unlocking }) (th' := th) (it := it) hs k kd] at this
+      exact this
+    by_cases hk : k = it.key
+    · subst hk
+      have ki := hinv.key it.key
+      have hS := hc .S
+      have hX := hc .X
+      have h0 : ∀ kd, hold it.key kd { th with succ := rest, pc := .unlocking } = 0 :=
+        fun kd => not_holds_of_key_notin (th := { th with succ := rest, pc := .unlocking }) hnot kd
+      rw [h0] at hS hX
+      have hrc := ki.rc_eq
+      cases hkd : it.kind with
+      | X =>
+        obtain ⟨u1, u2⟩ := unlockOne_X s.m s.rc it.key
+        rw [hkd] at hm' hrc'
+        simp [hkd] at hS hX
+        cases hm : s.m it.key with
+        | none => have := ki.free hm; omega
+        | some kd' =>
+          cases kd' with
+          | S => have := ki.shared hm; omega
+          | X =>
+            have := ki.excl hm
+            constructor
+            · rw [hrc', u2]; omega
+            · intro _; omega
+            · intro hh; rw [hm', u1] at hh; cases hh
+            · intro hh; rw [hm', u1] at hh; cases hh
+      | S =>
+        obtain ⟨u2, u1⟩ := unlockOne_S s.m s.rc it.key
+        rw [hkd] at hm' hrc'
+        simp [hkd] at hS hX
+        cases hm : s.m it.key with
+        | none => have := ki.free hm; omega
+        | some kd' =>
+          cases kd' with
+          | X => have := ki.excl hm; omega
+          | S =>
+            have := ki.shared hm
+            rcases u1 with ⟨z, u1⟩ | ⟨z, u1⟩
+            · constructor
+              · rw [hrc', u2]; omega
+              · intro _; omega
+              · intro hh; rw [hm', u1] at hh; cases hh
+              · intro hh; rw [hm', u1] at hh; cases hh
+            · constructor
+              · rw [hrc', u2]; omega
+              · intro hh; rw [hm', u1, hm] at hh; cases hh
+              · intro hh; rw [hm', u1, hm] at hh; cases hh
+              · intro _; omega
+    · have ho := unlockOne_other s.m s.rc it.key it.kind k hk
+      apply keyInv_congr (by rw [hrc']; exact ho.2) (by rw [hm']; exact ho.1) _ (hinv.key k)
+      intro kd
+      have := hc kd
+      have hne : ¬ (it.key = k ∧ it.kind = kd) := fun hh => hk hh.1.symm
+      simp only [hne, if_false] at this
+      omega
+  · intro x hx hxpc
+    rw [hthreads] at hx
+    rw [hstore]
+    rcases mem_set_cases hx with hx | hx
+    · exact hinv.fresh x hx hxpc
+    · subst hx
+      simp at hxpc
+
+/-! ### cs.apply -/
+
+theorem applyW_other (store : Nat → Nat) (t : Nat) (items : List Item) (k : Nat)
+    (h : ∀ b ∈ items, b.kind = .X → b.key ≠ k) : applyW store t items k = store k := by
+  induction items generalizing store with
+  | nil => rfl
+  | cons b rest ih =>
+    unfold applyW
+    rw [ih _ (fun c hc => h c (by simp [hc]))]
+    by_cases hb : b.kind = .X
+    · simp only [hb, if_true]
+      exact upd_other _ _ _ _ (fun hh => h b (by simp) hb hh.symm)
+    · simp [hb]
+
+theorem check_congr (store store' : Nat → Nat) (items : List Item)
+    (h : ∀ a ∈ items, store' a.key = store a.key) : check store' items = check store items := by
+  unfold check
+  induction items with
+  | nil => rfl
+  | cons a rest ih =>
+    simp only [List.all_cons]
+    rw [ih (fun c hc => h c (by simp [hc])), h a (by simp)]
+
+theorem mem_set_index {l : List Thread} {t : Nat} {a x : Thread} (h : x ∈ l.set t a) :
+    x = a ∨ ∃ u : Nat, u ≠ t ∧ l[u]? = some x := by
+  obtain ⟨u, hu⟩ := List.mem_iff_getElem?.mp h
+  by_cases hut : u = t
+  · subst hut
+    rw [List.getElem?_set] at hu
+    simp at hu
+    exact Or.inl hu.2.symm
+  · rw [List.getElem?_set] at hu
+    have : ¬ t = u := fun hh => hut hh.symm
+    simp [this] at hu
+    exact Or.inr ⟨u, hut, hu⟩
+
+theorem holds_of_inside {th : Thread} (hs : shape th) (hin : th.inside = true) {a : Item} (ha : a ∈ th.items) :
+    th.holds a.key a.kind := by
+  unfold shape at hs
+  unfold Thread.inside at hin
+  split at hin <;> simp_all <;> exact ⟨a, hs a ha, rfl, rfl⟩
+
+theorem inv_apply {s s' : Sys} {t : Nat} {th : Thread} (hinv : Inv s) (h : s.threads[t]? = some th)
+    (hpc : th.pc = .checked true) (hm' : s'.m = s.m) (hrc' : s'.rc = s.rc)
+    (hstore : s'.store = applyW s.store t th.items)
+    (hthreads : s'.threads = s.threads.set t { th with pc := .applied }) : Inv s' := by
+  have hmem : th ∈ s.threads := List.mem_of_getElem? h
+  have hsh := hinv.shape th hmem
+  constructor
+  · intro x hx
+    rw [hthreads] at hx
+    rcases mem_set_cases hx with hx | hx
+    · exact hinv.distinct x hx
+    · subst hx; exact hinv.distinct th hmem
+  · intro x hx
+    rw [hthreads] at hx
+    rcases mem_set_cases hx with hx | hx
+    · exact hinv.shape x hx
+    · subst hx
+      unfold shape at hsh ⊢
+      simp only [hpc] at hsh
+      simpa using hsh
+  · intro k
+    apply keyInv_congr (by rw [hrc']) (by rw [hm']) _ (hinv.key k)
+    intro kd
+    have := cnt_set (s' := s') (th' := { th with pc := .applied }) h hthreads k kd
+    rw [hold_same_succ (th := th) (th' := { th with pc := .applied }) rfl] at this
+    omega
+  · intro x hx hxpc
+    rw [hthreads] at hx
+    rcases mem_set_index hx with hx | ⟨u, hut, hu⟩
+    · subst hx; simp at hxpc
+    · have hxmem : x ∈ s.threads := List.mem_of_getElem? hu
+      rw [hstore, check_congr s.store _ x.items, hinv.fresh x hxmem hxpc]
+      intro a ha
+      apply applyW_other
+      intro b hb hbX hkey
+      have hxh : x.holds a.key a.kind :=
+        holds_of_inside (hinv.shape x hxmem) (by simp [Thread.inside, hxpc]) ha
+      have hth : th.holds b.key b.kind :=
+        holds_of_inside hsh (by simp [Thread.inside, hpc]) hb
+      rw [hbX, hkey] at hth
+      exact excl_of_inv hinv.key (fun hh => hut hh.symm) h hu hth hxh
+
+/-! ### every step preserves the invariant -/
+
+theorem inv_beginUnlock {s : Sys} {t : Nat} {th : Thread} (hinv : Inv s) (h : s.threads[t]? = some th) :
+    Inv (beginUnlock s t th) := by
+  unfold beginUnlock
+  split
+  · rename_i hs
+    exact inv_local (th' := { th with pc := .done }) hinv h rfl rfl rfl rfl rfl rfl (by simpa [shape] using hs) (by simp)
+  · rename_i it rest hs
+    exact inv_release hinv h hs rfl rfl rfl rfl
+
+theorem inv_step {s : Sys} (hinv : Inv s) (t : Nat) : Inv (step s t) := by
+  unfold step
+  split
+  · exact hinv
+  · rename_i th h
+    have hmem : th ∈ s.threads := List.mem_of_getElem? h
+    have hsh := hinv.shape th hmem
+    split
+    · -- locking
+      rename_i hpc
+      split
+      · rename_i it rest ht
+        split
+        · rename_i r hl
+          exact inv_acquire hinv h hpc ht hl
+        · apply inv_local (s' := s.setThread t { th with pc := if th.succ.isEmpty then .done else .unlocking, res := .lockFail })
+            (th' := { th with pc := if th.succ.isEmpty then .done else .unlocking, res := .lockFail }) hinv h rfl rfl rfl rfl rfl rfl
+          · by_cases hs : th.succ.isEmpty = true
+            · have hs' : th.succ = [] := List.isEmpty_iff.mp hs
+              simp [shape, hs']
+            · simp [shape, hs]
+          · intro hh; by_cases hs : th.succ.isEmpty = true <;> simp [hs] at hh
+      · rename_i ht
+        have hall : ∀ a, a ∈ th.items → a ∈ th.succ := by
+          intro a ha
+          unfold shape at hsh
+          simp only [hpc] at hsh
+          rcases hsh a ha with h1 | h1
+          · exact h1
+          · rw [ht] at h1; simp at h1
+        split
+        · rename_i hck
+          exact inv_local (th' := { th with pc := .checked true }) hinv h rfl rfl rfl rfl rfl rfl
+            (by simpa [shape] using hall) (fun _ => hck)
+        · exact inv_local (th' := { th with pc := .checked false, res := .stale }) hinv h rfl rfl rfl rfl rfl rfl
+            (by simpa [shape] using hall) (by simp)
+    · -- checked true
+      rename_i hpc
+      exact inv_apply hinv h hpc rfl rfl rfl rfl
+    · exact inv_beginUnlock hinv h
+    · -- applied
+      rename_i hpc
+      apply inv_local (s' := s.setThread t { th with pc := .published, res := .admitted })
+        (th' := { th with pc := .published, res := .admitted }) hinv h rfl rfl rfl rfl rfl rfl
+      · unfold shape at hsh ⊢
+        simp only [hpc] at hsh
+        simpa using hsh
+      · simp
+    · exact inv_beginUnlock hinv h
+    · exact inv_beginUnlock hinv h
+    · exact hinv
+
+theorem inv_run {s : Sys} (hinv : Inv s) (sched : List Nat) : Inv (run s sched) := by
+  induction sched generalizing s with
+  | nil => exact hinv
+  | cons t ts ih => exact ih (inv_step hinv t)
+
+theorem cnt_init_zero (store : Nat → Nat) (reqs : List (List Item)) (k : Nat) (kd : Kind) :
+    cnt (init store reqs) k kd = 0 := by
+  unfold cnt
+  apply sumBy_zero
+  intro th hth
+  simp only [init, List.mem_map] at hth
+  obtain ⟨r, _, rfl⟩ := hth
+  simp [hold, holdsB, newThread]
+
+theorem inv_init (store : Nat → Nat) (reqs : List (List Item))
+    (hd : ∀ r ∈ reqs, (r.map (·.key)).Nodup) : Inv (init store reqs) := by
+  constructor
+  · intro th hth
+    simp only [init, List.mem_map] at hth
+    obtain ⟨r, hr, rfl⟩ := hth
+    simpa [keysDistinct, newThread] using hd r hr
+  · intro th hth
+    simp only [init, List.mem_map] at hth
+    obtain ⟨r, hr, rfl⟩ := hth
+    simp [shape, newThread]
+  · intro k
+    constructor
+    · rw [cnt_init_zero]; rfl
+    · intro _; exact ⟨cnt_init_zero _ _ _ _, cnt_init_zero _ _ _ _⟩
+    · intro hh; simp [init] at hh
+    · intro hh; simp [init] at hh
+  · intro th hth hpc
+    simp only [init, List.mem_map] at hth
+    obtain ⟨r, hr, rfl⟩ := hth
+    simp [newThread] at hpc
+
+/-! ## the property theorems -/
+
+/-- the lock keys of every request are pairwise distinct (what `ExtractLockKeys` returns) -/
+def DistinctKeys (reqs : List (List Item)) : Prop := ∀ r ∈ reqs, (r.map (·.key)).Nodup
+
+theorem inv_reachable (store : Nat → Nat) (reqs : List (List Item)) (hd : DistinctKeys reqs) (sched : List Nat) :
+    Inv (run (init store reqs) sched) :=
+  inv_run (inv_init store reqs hd) sched
+
+/-- the statement of `mutex_inv` about one state: (1) two threads inside their critical sections share a
+key only if both hold it shared (so an exclusive holder is the only one inside with that key, and shared
+holders exclude exclusive ones); (2) the table entry of every key of a thread inside exists, with its kind. -/
+def MutexHolds (m : Nat → Option Kind) (view : List (List Item × Bool)) : Prop :=
+  (∀ (t1 t2 : Nat) (r1 r2 : List Item) (a b : Item), t1 ≠ t2 → view[t1]? = some (r1, true) → view[t2]? = some (r2, true) →
+      a ∈ r1 → b ∈ r2 → a.key = b.key → a.kind = .S ∧ b.kind = .S) ∧
+  (∀ (t : Nat) (r : List Item) (a : Item), view[t]? = some (r, true) → a ∈ r → m a.key = some a.kind)
+
+/-- what the property looks at: every thread's lock keys and whether it is inside its critical section -/
+def view (s : Sys) : List (List Item × Bool) := s.threads.map (fun th => (th.items, th.inside))
+
+theorem view_get {s : Sys} {t : Nat} {r : List Item} {b : Bool} (h : (view s)[t]? = some (r, b)) :
+    ∃ th, s.threads[t]? = some th ∧ th.items = r ∧ th.inside = b := by
+  unfold view at h
+  rw [List.getElem?_map] at h
+  cases hth : s.threads[t]? with
+  | none => simp [hth] at h
+  | some th =>
+    simp [hth] at h
+    exact ⟨th, rfl, h.1, h.2⟩
+
+/-- **mutex_inv** — for EVERY schedule, any number of threads, any requests: mutual exclusion of the
+critical sections and existence of the table entries. -/
+theorem mutex_inv (store : Nat → Nat) (reqs : List (List Item)) (hd : DistinctKeys reqs) (sched : List Nat) :
+    MutexHolds (run (init store reqs) sched).m (view (run (init store reqs) sched)) := by
+  have hinv := inv_reachable store reqs hd sched
+  generalize run (init store reqs) sched = s at hinv
+  constructor
+  · intro t1 t2 r1 r2 a b hne h1 h2 ha hb hkey
+    obtain ⟨th1, g1, rfl, i1⟩ := view_get h1
+    obtain ⟨th2, g2, rfl, i2⟩ := view_get h2
+    have hh1 := holds_of_inside (hinv.shape th1 (List.mem_of_getElem? g1)) i1 ha
+    have hh2 := holds_of_inside (hinv.shape th2 (List.mem_of_getElem? g2)) i2 hb
+    cases hak : a.kind with
+    | X =>
+      rw [hak] at hh1
+      rw [← hkey] at hh2
+      exact absurd hh2 (excl_of_inv hinv.key hne g1 g2 hh1)
+    | S =>
+      cases hbk : b.kind with
+      | X =>
+        rw [hbk] at hh2
+        rw [hkey] at hh1
+        exact absurd hh1 (excl_of_inv hinv.key (fun h => hne h.symm) g2 g1 hh2)
+      | S => exact ⟨rfl, rfl⟩
+  · intro t r a h ha
+    obtain ⟨th, g, rfl, i⟩ := view_get h
+    exact entry_of_holds hinv.key g (holds_of_inside (hinv.shape th (List.mem_of_getElem? g)) i ha)
+
+/-- **mutex_inv_holders** — the same for every HOLDER (also threads in the middle of TryLock or of Unlock,
+holding only some of their keys): an exclusive holder of `k` is the only holder of `k`, and whoever holds
+`(k, kind)` finds the entry `k ↦ kind` in the table. -/
+theorem mutex_inv_holders (store : Nat → Nat) (reqs : List (List Item)) (hd : DistinctKeys reqs) (sched : List Nat) :
+    let s := run (init store reqs) sched
+    (∀ (t1 t2 : Nat) (th1 th2 : Thread) (k : Nat) (kd : Kind), t1 ≠ t2 → s.threads[t1]? = some th1 →
+        s.threads[t2]? = some th2 → th1.holds k .X → ¬ th2.holds k kd) ∧
+    (∀ (t : Nat) (th : Thread) (k : Nat) (kd : Kind), s.threads[t]? = some th → th.holds k kd → s.m k = some kd) := by
+  intro s
+  have hinv : Inv s := inv_reachable store reqs hd sched
+  exact ⟨fun t1 t2 th1 th2 k kd hne h1 h2 hh => excl_of_inv hinv.key hne h1 h2 hh,
+         fun t th k kd h hh => entry_of_holds hinv.key h hh⟩
+
+/-- **refcount_exact** — the reference count of a key is exactly the number of its shared holders, and
+the table has an entry for `k` iff somebody holds `k`. -/
+theorem refcount_exact (store : Nat → Nat) (reqs : List (List Item)) (hd : DistinctKeys reqs) (sched : List Nat) (k : Nat) :
+    (run (init store reqs) sched).rc k = (cnt (run (init store reqs) sched) k .S : Int) ∧
+    ((run (init store reqs) sched).m k = none ↔
+      cnt (run (init store reqs) sched) k .S = 0 ∧ cnt (run (init store reqs) sched) k .X = 0) := by
+  have ki := (inv_reachable store reqs hd sched).key k
+  generalize run (init store reqs) sched = s at ki
+  refine ⟨ki.rc_eq, ki.free, ?_⟩
+  intro hc
+  cases hm : s.m k with
+  | none => rfl
+  | some kd =>
+    cases kd with
+    | S => have := ki.shared hm; omega
+    | X => have := ki.excl hm; omega
+
+/-- **quiescent_clean** (all-or-fail releases what it took) — once every thread has finished, whether
+its TryLock succeeded or failed half-way, the table is empty and every reference count is 0. -/
+theorem quiescent_clean (store : Nat → Nat) (reqs : List (List Item)) (hd : DistinctKeys reqs) (sched : List Nat)
+    (hdone : ∀ th ∈ (run (init store reqs) sched).threads, th.pc = .done) (k : Nat) :
+    (run (init store reqs) sched).m k = none ∧ (run (init store reqs) sched).rc k = 0 := by
+  have hinv := inv_reachable store reqs hd sched
+  generalize run (init store reqs) sched = s at hinv hdone
+  have hz : ∀ kd, cnt s k kd = 0 := by
+    intro kd
+    apply sumBy_zero
+    intro th hth
+    have hs := hinv.shape th hth
+    unfold shape at hs
+    simp only [hdone th hth] at hs
+    simp [hold, holdsB, hs]
+  have ki := hinv.key k
+  constructor
+  · cases hm : s.m k with
+    | none => rfl
+    | some kd =>
+      cases kd with
+      | S => have := ki.shared hm; have := hz .S; omega
+      | X => have := ki.excl hm; have := hz .X; omega
+  · rw [ki.rc_eq, hz]; rfl
 
 end XV.C12
